@@ -363,8 +363,9 @@ def _free_var_format(val: object) -> 'FormatBound':
     ``tuple``/``list`` capture recurses so a captured ``(1.0, 2.0)`` becomes
     ``TupleFormat((SetFormat{1}, SetFormat{2}))`` instead of widening every
     element to ``REAL_FORMAT``.  Returns ``None`` when no better-than-type bound
-    is available (``bool``, non-finite / non-numeric scalar, empty or
-    heterogeneous list), so the caller falls back to the type-derived bound."""
+    is available (``bool``, non-numeric scalar, empty or heterogeneous list), so
+    the caller falls back to the type-derived bound.  An infinity or a NaN gets
+    ``REAL_FORMAT``: the type-derived bound may be a format that excludes them."""
     match val:
         case bool():
             # `bool` subclasses `int`, but a boolean has no numeric format;
@@ -375,18 +376,25 @@ def _free_var_format(val: object) -> 'FormatBound':
             return SetFormat.from_value(val)
         case Float():
             if not val.is_finite():
-                return None
+                # the type-derived bound is a format of the pinned context,
+                # which need not hold an infinity or a NaN
+                return REAL_FORMAT
             # A captured `-0.0` is statable now: `NEG_ZERO` is a `SetValue`.
             if val.is_zero() and val.s:
                 return SetFormat.from_value(NEG_ZERO)
             return SetFormat.from_value(val.as_rational())
         case RealFloat():
+            if val.is_zero() and val.s:
+                return SetFormat.from_value(NEG_ZERO)
             return SetFormat.from_value(Fraction(val))
         case int() | float():
+            if isinstance(val, float) and val == 0 and math.copysign(1.0, val) < 0:
+                # a `Fraction` has no `-0`; the captured value does
+                return SetFormat.from_value(NEG_ZERO)
             try:
                 return SetFormat.from_value(Fraction(val))
             except (ValueError, OverflowError):
-                return None  # non-finite float
+                return REAL_FORMAT  # non-finite float: see the `Float` case
         case tuple():
             # Tuple slots are independent; a non-numeric slot is `None`, which
             # `TupleFormat` permits (mirrors `_bound_of_type` on a `TupleType`).
